@@ -22,7 +22,8 @@ CHECK_DEADLOCK FALSE
 def emit(ctx, tier):
     q = tier == "quick"
     consts = {"Bases": "BasesQ" if q else "BasesT", "Eps": "EpsQ" if q else "EpsT",
-              "Centres": "CentresQ" if q else "CentresT", "Scales": "ScalesQ"}
+              "Centres": "CentresQ" if q else "CentresT", "Scales": "ScalesQ" if q else "ScalesT",
+              "CentresE": "CentresQ", "ScalesE": "ScalesQ"}
     cfg = CFG + "CONSTANTS\n" + "\n".join(f" {k} <- {v}" for k, v in consts.items()) + "\n SeriesN = 60\n"
     if not q:
         # the full product is large; thorough runs it for the 1- and 2-parameter classes and samples ellipsoids
@@ -33,9 +34,13 @@ def emit(ctx, tier):
 
 def build(rec):
     import coxeter
-    env = make_env(rec["env"])
-    ax = [float(env[k]) for k in ("a1", "a2", "a3") if k in env]
-    c = [float(env["xc"]), float(env["yc"]), float(env["zc"])]
+    env0 = make_env(rec["env"])
+    ax = [float(env0[k]) for k in ("a1", "a2", "a3") if k in env0]
+    c = [float(env0["xc"]), float(env0["yc"]), float(env0["zc"])]
+    # the expectations are evaluated for the numbers the implementation actually receives: the doubles nearest to the
+    # spec's rationals, taken as exact rationals (matters for near-ties 1 + 1e-15, whose eccentricity is ill-conditioned)
+    env = make_env([[k, F(float(v))] for k, v in ((n, env0[n]) for n in ("a1", "a2", "a3", "xc", "yc", "zc") if n in env0)]
+                   + [p for p in rec["env"] if p[0] not in ("a1", "a2", "a3", "xc", "yc", "zc")])
     cls = rec["cls"]
     S = coxeter.shapes
     if cls == "Circle":
